@@ -83,6 +83,11 @@ def main():
 
                     df = synth.daily_frame(n=340, noise_seed=act[2])
                     em.DailyModel(model="legacy").fit(em.DailyBaselineData(df, is_electricity_data=True), ignore_disqualification=True)
+    # a portfolio run writes its models at the end: every model fitted in this process is serialised again after all the others
+    for name, (m, b, rep) in models.items():
+        with contextlib.redirect_stdout(io.StringIO()):
+            js = m.to_json()
+        out.append({"meter": name, "model": hashlib.sha256(js.encode()).hexdigest(), "prediction": None, "at_end": True})
     print("C03RESULT " + json.dumps(out))
 
 
